@@ -200,6 +200,32 @@ pub fn read_response<S: TimedRead>(stream: &mut S, wait: Duration) -> Probe {
     }
 }
 
+/// Is a UDP socket bound to `addr` owned by this process? (/proc/net/udp inode looked up in
+/// /proc/self/fd). None when no socket is bound there or it cannot be told.
+pub fn udp_socket_is_ours(addr: SocketAddr) -> Option<bool> {
+    let SocketAddr::V4(v4) = addr else { return None };
+    let o = v4.ip().octets();
+    let key = format!("{:02X}{:02X}{:02X}{:02X}:{:04X}", o[3], o[2], o[1], o[0], v4.port());
+    let table = std::fs::read_to_string("/proc/net/udp").ok()?;
+    let inodes: Vec<String> = table.lines().skip(1).filter_map(|line| {
+        let f: Vec<&str> = line.split_whitespace().collect();
+        (f.len() > 9 && f[1] == key).then(|| f[9].to_owned())
+    }).collect();
+    if inodes.is_empty() {
+        return None;
+    }
+    let dir = std::fs::read_dir("/proc/self/fd").ok()?;
+    for e in dir.flatten() {
+        if let Ok(t) = std::fs::read_link(e.path()) {
+            let t = t.to_string_lossy().into_owned();
+            if inodes.iter().any(|i| t == format!("socket:[{i}]")) {
+                return Some(true);
+            }
+        }
+    }
+    Some(false)
+}
+
 /// connect, send one GET, read the answer
 pub fn http_probe(addr: SocketAddr, host: &str, path: &str, wait: Duration) -> Probe {
     let mut s = match can_connect(addr) {
